@@ -15,6 +15,7 @@ import ast
 from .. import terms as T
 from ..effects import raise_name
 from ..model import AnalysisError, self_attr, stmt_text, walk_no_nested
+from ..paths import unversion as unversion_
 
 # documented operations (docs/simulation.rst "Operations"/"Method triplets")
 TABLE = {
@@ -166,6 +167,7 @@ def run(chk, ctx) -> None:
                got=[stmt_text(st, 60) for st in stmts if not isinstance(st, ast.Try)][:2] or None)
     chk.floor('C08.query_shape', 17)
     _callbacks(chk, ctx)
+    _partial_calls(chk, ctx, disc)
 
     # ------------------------------------------------------------- forwarding
     n_fw = 0
@@ -626,3 +628,49 @@ def _callbacks(chk, ctx) -> None:
                 chk.ob('C08.callbacks', f'State.{name}:{self_attr(c.func)}', not c.keywords and not any(isinstance(a, ast.Starred) for a in c.args),
                        ctx.loc(fi, c), f'the caller-supplied `{self_attr(c.func)}` is called with positional arguments only', got=stmt_text(c) if hasattr(c, 'lineno') else None)
     chk.floor('C08.callbacks', 3)
+
+
+def _partial_calls(chk, ctx, disc) -> None:
+    """an operation that takes something out of a queue of the state by value (``self.Q.remove(x)``, outside any loop or membership
+    test) fails with ValueError when x is not there - after other effects were applied. The verifier therefore refuses that case itself:
+    one of its refusals tests membership in the same queue"""
+    ms = ctx.state.methods
+    n = 0
+    for op, (v, q) in disc.items():
+        of = ms[op]
+        in_loop = {id(x) for lp in walk_no_nested(of.node) if isinstance(lp, (ast.For, ast.While)) for x in ast.walk(lp)}
+        guarded = {id(x) for st in walk_no_nested(of.node) if isinstance(st, ast.If) and any(isinstance(o, (ast.In, ast.NotIn)) for c in ast.walk(st.test)
+                                                                                         if isinstance(c, ast.Compare) for o in c.ops) for x in ast.walk(st)}
+        for c in walk_no_nested(of.node):
+            if isinstance(c, ast.Call) and isinstance(c.func, ast.Attribute) and c.func.attr == 'remove' and self_attr(c.func.value) is not None \
+                    and id(c) not in in_loop and id(c) not in guarded:
+                attr = self_attr(c.func.value)
+                n += 1
+                ok = False
+                for p in ctx.paths(ms[v]):
+                    if p.raised:
+                        for cond in p.conds(flat=True):
+                            if any(isinstance(t, tuple) and t and t[0] in ('in', 'notin') and T.mentions(t, lambda x: x == ('self', attr)) for t in T.subterms(cond)):
+                                ok = True
+                chk.ob('C08.partial', f'State.{op}:{attr}.remove', ok, ctx.loc(of, c),
+                       f'the operation removes a value from self.{attr}, which fails when it is not there: the verifier refuses that case '
+                       f'(a refusal that tests membership in self.{attr})', got=stmt_text(c))
+        # ... and one that takes the next player off the queue of actors needs a verifier that refuses when nobody is to act
+        pops = [c for c in walk_no_nested(of.node) if isinstance(c, ast.Call) and (self_attr(c.func) == '_pop_actor_index' or (
+            isinstance(c.func, ast.Attribute) and c.func.attr in ('popleft', 'pop') and self_attr(c.func.value) == 'actor_indices' and not c.args))]
+        if pops:
+            n += 1
+            empty = T.spec('not self.actor_indices', boolean=True)
+            todo, seen, ok = [v], set(), False
+            while todo:
+                cur = todo.pop()
+                if cur in seen or cur not in ms:
+                    continue
+                seen.add(cur)
+                for p in ctx.paths(ms[cur]):
+                    if p.raised and empty in [unversion_(c) for c in p.conds(flat=True)]:
+                        ok = True
+                todo += [c for c in ctx.eff.calls.get(cur, ()) if c.startswith(('_verify_', 'verify_'))]
+            chk.ob('C08.partial', f'State.{op}:actor_indices.pop', ok, ctx.loc(of, pops[0]),
+                   'the operation takes the next player off the queue of actors: its verifier refuses when that queue is empty', got=stmt_text(pops[0]))
+    chk.floor('C08.partial', 1)
